@@ -22,6 +22,17 @@ Proof.
   - inversion E; subst. inversion L as [L']. destruct (IH y r r' L' H1) as [-> ->]. split; reflexivity.
 Qed.
 
+Lemma sapp_inj_r : forall (s a b : string), (a ++ s)%string = (b ++ s)%string -> a = b.
+Proof.
+  intros s a. revert s. induction a as [|x a IH]; intros s b E.
+  - destruct b as [|y b]; [reflexivity|]. exfalso.
+    assert (String.length s = String.length (String y b ++ s)) as L by (rewrite <- E; reflexivity).
+    rewrite sapp_length in L. simpl in L. lia.
+  - destruct b as [|y b].
+    + exfalso. assert (String.length (String x a ++ s) = String.length s) as L by (rewrite E; reflexivity).
+      rewrite sapp_length in L. simpl in L. lia.
+    + simpl in E. inversion E; subst. f_equal. eapply IH; eauto.
+Qed.
 Fixpoint no_colon (s : string) : bool :=
   match s with EmptyString => true | String c s' => negb (Ascii.eqb c ":") && no_colon s' end.
 
